@@ -57,6 +57,10 @@ func runC11(p *Prog, r *Report) {
 	e10Close(p, r, "C11.4/E10a")
 	r.Floor("C11.4/E10a", "e10.close_sites", 55)
 
+	r.Describe("C11.4/E10b", "a channel field that is both closed and sent to: senders look the owner up and send inside one critical section, every close is dominated by the owner's removal under that lock")
+	e10SendOnClosable(p, r, "C11.4/E10b")
+	r.Floor("C11.4/E10b", "e10.closed_and_sent_channel_fields", 1)
+
 	r.Describe("C11.3/E1", "no lock is acquired while already held (directly or through a callee)")
 	e1Obligations(p, r, "C11.3/E1", map[string]bool{"double-lock": true, "callee-relock": true})
 }
